@@ -322,7 +322,10 @@ contract(F + "AbstractGrader.__call__", props=["C01", "C02", "C11", "C17"],
     skip="symbolic execution completes (10 paths, 49 VCs) but 6 obligations time out in z3 (100 s each) and the run takes 16 min; "
          "the behaviour of __call__ is decided by the bounded tiers of C01/C02/C11/C17",
     requires=["call_self(self)", "is_dict(kwargs)", "not same(student_input, self) and not same(student_input, self.config)",
-              "implies('attempt' in kwargs, is_none(kwargs['attempt']) or is_int(kwargs['attempt']))"],
+              "implies('attempt' in kwargs, is_none(kwargs['attempt']) or is_int(kwargs['attempt']))",
+              # (preconditions of create_debuglog, which is now proved instead of trusted)
+              "has_attr(self, 'modified_defaults') and (self.modified_defaults is None or (is_dict(self.modified_defaults) and allocated(self.modified_defaults)))",
+              "implies(self.log_created, has_attr(self, 'debuglog') and is_list(self.debuglog) and allocated(self.debuglog))"],
     callees={"self.check": SELF_CHECK},
     exsures={
         # with debug off only library errors escape (C02); an unanticipated failure becomes the generic StudentFacingError
